@@ -159,6 +159,13 @@ impl QueryComputing {
     pub fn clear_dependencies(&self) {
         self.callee_info.callee_queries.clear_sync();
         self.callee_info.callee_order.write().clear();
+
+        // A cycle seen through the dependencies of the repair phase says
+        // nothing about the execution that starts now: if the flag stayed
+        // set, the executor would be unwound at its very first read and the
+        // query would be stored with a truncated dependency set (and keep its
+        // cycle default for ever once the cycle is gone).
+        self.is_in_scc.store(false, std::sync::atomic::Ordering::SeqCst);
     }
 
     pub fn mark_scc(&self) {
